@@ -96,5 +96,11 @@ def explore(ctx):
             s = ["park/MakeArg/1", "feednowait/" + (scn.feed_call(10, 100) if rng.chance(1, 2) else scn.feed_notify(100))[5:], "waitpark/MakeArg",
                  "close/nowait", "waitdone", "settle", "release/MakeArg", "settle", "sleep/5", "settle"]
             lines.append(scn.line("scn", "s%d" % n, s, extra="nt=1 family=close-while-decoding-request")); n += 1
+    if not ctx.get("replay"):
+        k = 0
+        for rep in range({"quick": 2, "thorough": 20, "search": 4}[tier]):
+            for when in ("inflight", "afterwrite"):
+                for how in ("cancel", "deadline"):
+                    lines.append("e2ec y%d when=%s how=%s" % (k, when, how)); k += 1
     triples, tie = C.run_both(ctx, "TestVerifScn", lines, go_timeout=1500)
     return dict(verdicts=triples, tie=tie, stats=dict(scenarios=len(lines)), exhaustive=not ctx.get("replay"))
